@@ -69,6 +69,25 @@ MUTS = {
 					nState.doRestart = false
 					return mask, nil, nState, err
 				}''', '''				_ = intstream.Send(s.Conn(), out, websocket, stream.DefaultVersion, cfg.Lang, location.String(), origin.String(), "")'''),
+ 'N8-read-deadline-only': ('session.go', """			conn.SetDeadline(aLongTimeAgo)
+			<-cancelCtx.Done()
+			/* #nosec */
+			conn.SetDeadline(time.Time{})""", """			conn.SetReadDeadline(aLongTimeAgo)
+			<-cancelCtx.Done()
+			/* #nosec */
+			conn.SetReadDeadline(time.Time{})"""),
+ 'N9-write-deadline-only': ('session.go', """			conn.SetDeadline(aLongTimeAgo)
+			<-cancelCtx.Done()
+			/* #nosec */
+			conn.SetDeadline(time.Time{})""", """			conn.SetWriteDeadline(aLongTimeAgo)
+			<-cancelCtx.Done()
+			/* #nosec */
+			conn.SetWriteDeadline(time.Time{})"""),
+ 'N10-component-ack-without-id': ('component/component.go', """			if id == "" {
+				return mask, nil, nil, errors.New("component: expected server stream to contain stream ID")
+			}""", ""),
+ 'N11-component-second-procinst': ('component/component.go', "				if !foundProc {", "				if !foundProc || true {"),
+ 'M13-tee-skips-first-list-flag': ('negotiator.go', """		first := !nState.featuresRead""", """		first := data == nil"""),
  # ---- harmless rewrites
  'H1-sorted-map-iteration': ('features.go', '''				for _, v := range list.cache {''', '''				keys := make([]string, 0, len(list.cache))
 				for k := range list.cache {
